@@ -4,6 +4,17 @@ import vlib
 SUB = "c12"
 MODULES = ["Mtv.Props.C12"]
 THEOREMS = [
+    "Mtv.Session.base64_roundtrip",
+    "Mtv.Session.salt_roundtrip",
+    "Mtv.Session.read_write_session",
+    "Mtv.Session.torn_is_error",
+    "Mtv.Session.missing_is_notFound",
+    "Mtv.Session.last_store_wins",
+    "Mtv.Session.stale_cache_before_repair",
+    "Mtv.Session.path_forms",
+    "Mtv.Session.bare_name_before_repair",
+    "Mtv.Session.resume_skips_exchange",
+    "Mtv.Session.fresh_or_torn_start",
 ]
 RULE = ("operations on real files in a per-run scratch directory through session.NewFromFile(...).Store/Load and "
         "mtproto.NewMTProto: round trips on six path shapes, store/load histories with forced (equal) modification "
